@@ -21,7 +21,7 @@ LOOP_LIMIT = 1 << 16
 
 
 class Site:
-    __slots__ = ("body", "bb", "kind", "detail", "key", "span", "status", "reason", "mac", "const_index")
+    __slots__ = ("body", "bb", "kind", "detail", "key", "span", "status", "reason", "mac", "const_index", "tainted")
 
     def __init__(self, body, bb, kind, detail, span, mac=None):
         self.body = body
@@ -34,6 +34,7 @@ class Site:
         self.key = None
         self.mac = mac or []
         self.const_index = None
+        self.tainted = False
 
 
 def sites_of(b):
@@ -81,7 +82,40 @@ class Census:
         return Flow(b)
 
     def classify(self, s):
-        """sets s.status in {'auto', 'open'} and s.reason"""
+        """sets s.status in {'auto', 'open'}, s.reason and s.tainted (a file number reaches the construct)"""
+        s.tainted = self._site_tainted(s)
+        self._classify(s)
+        if s.status == "open" and s.reason.startswith("[tainted]"):
+            s.tainted = True
+        return s
+
+    def _site_tainted(self, s):
+        b = s.body
+        t = b["blocks"][s.bb]["term"]
+        T = self.taint
+        try:
+            if s.kind == "assert":
+                ops = list(t.get("ops") or [])
+                if s.detail in ("DivisionByZero", "RemainderByZero"):
+                    cl = F.op_local(t["cond"])
+                    for st in b["blocks"][s.bb]["stmts"]:
+                        if st[0] == "assign" and st[1] == [cl] and st[2][0] == "binop":
+                            ops += [st[2][2], st[2][3]]
+                return any(T.operand(b, o).taint for o in ops)
+            if s.kind in ("index", "slicefn", "alloc"):
+                for a in t["args"][(0 if s.kind == "alloc" else 1):]:
+                    if T.operand(b, a).taint:
+                        return True
+                    l = F.op_local(a)
+                    for d in T.defs(b).get(l, []) if l is not None else []:
+                        if d[0] == "assign" and d[2][0] == "aggregate":
+                            if any(T.operand(b, o).taint for o in d[2][2]):
+                                return True
+        except Exception:
+            return False
+        return False
+
+    def _classify(self, s):
         b = s.body
         t = b["blocks"][s.bb]["term"]
         T = self.taint
@@ -143,7 +177,7 @@ class Census:
                 else:
                     v = vals[0] if vals else None
                     l = locs[0] if locs else None
-                if self.G(b, s.bb, l, v):
+                if self.GX(b, s.bb, div if div is not None else (ops[0] if ops else None), v):
                     return self._auto(s, "divisor compared before use")
                 return self._open(s, "divisor %s may be zero" % v, bool(v and v.taint))
             if kind == "OverflowNeg":
@@ -158,7 +192,7 @@ class Census:
                     return self._auto(s, "constant index into a fixed-size array")
                 if ops[0][0] == "const" and iv.bound < ops[0][1].get("int", 0):
                     return self._auto(s, "index bounded by %s < array length %s" % (_fmt(iv.bound), ops[0][1].get("int")))
-                if self.G(b, s.bb, il, iv):
+                if self.GX(b, s.bb, idx, iv):
                     return self._auto(s, "index compared before use")
                 if il is not None and self._induction_over_len(b, il):
                     return self._auto(s, "index is the induction variable of a range bounded by a length")
@@ -196,6 +230,8 @@ class Census:
                         for nm, o in zip(d[2][1]["fields"], d[2][2]):
                             bounds.append((nm, o))
                 if not bounds and il is not None:
+                    if any(a[0] == "call" and last_seg(a[1]) == "to_range" for a in fl.origins(il)):
+                        return self._auto(s, "range produced by IndexRange::to_range(len) (rule G5 checks that it only returns start <= end <= len)")
                     return self._open(s, "range index", False)
                 okall = True
                 why = []
@@ -216,7 +252,7 @@ class Census:
                         okall = False
                     elif arr_n is not None and v.bound <= arr_n:
                         why.append("%s <= %d = array length" % (nm, arr_n))
-                    elif l is not None and (self.G(b, s.bb, l, v) or self._from_search(b, l)):
+                    elif l is not None and (self.GX(b, s.bb, o, v) or self._from_search(b, l)):
                         why.append("%s guarded" % nm)
                     else:
                         okall = False
@@ -229,7 +265,7 @@ class Census:
             m = re.search(r"\[\w+; (\d+)\]", base_ty)
             if m and v.bound < int(m.group(1)):
                 return self._auto(s, "index bounded by %s < array length %s" % (_fmt(v.bound), m.group(1)))
-            if v.g or il is not None and (T.guarded(b, s.bb, il) or self._from_search(b, il) or self._induction_over_len(b, il)):
+            if v.g or il is not None and (T.guarded_exact(b, s.bb, t["args"][1]) or self._from_search(b, il) or self._induction_over_len(b, il)):
                 return self._auto(s, "index compared / searched / induction variable")
             ci = self.const_of(b, t["args"][1])
             if ci is not None:
@@ -238,11 +274,16 @@ class Census:
                     return self._auto(s, "constant index after a length test on the base")
                 return self._open(s, "constant index %d into a collection whose length was not tested" % ci, v.taint)
             return self._open(s, "index %s may be out of bounds" % v, v.taint)
+        if s.kind == "slicefn" and s.detail == "drain" and len(t["args"]) > 1 and "RangeFull" in t["arg_tys"][1]["s"]:
+            return self._auto(s, "drain(..) takes the whole vector")
         if s.kind == "slicefn" and s.detail in ("copy_from_slice", "clone_from_slice"):
             la = self._slice_len(b, F.op_local(t["args"][0]))
             lb = self._slice_len(b, F.op_local(t["args"][1]))
             if la is not None and la == lb:
                 return self._auto(s, "both slices are cut to the same length (%s)" % (la,))
+            l0, l1 = F.op_local(t["args"][0]), F.op_local(t["args"][1])
+            if l0 is not None and l1 is not None and self._len_guarded(b, s.bb, l0) and self._len_guarded(b, s.bb, l1):
+                return self._auto(s, "the lengths of both slices are compared before the copy")
             return self._open(s, "%s: destination length %s, source length %s" % (s.detail, la, lb), False)
         if s.kind == "slicefn" and s.detail == "splice":
             rl = self._range_of(b, F.op_local(t["args"][1]))
@@ -254,12 +295,12 @@ class Census:
             if s.detail in ("chunks", "chunks_exact", "windows"):
                 if vs and vs[0].bound >= 1 and t["args"][1][0] == "const" and t["args"][1][1].get("int", 0) >= 1:
                     return self._auto(s, "constant non-zero chunk size")
-                if ls and ls[0] is not None and T.guarded(b, s.bb, ls[0]):
+                if ls and ls[0] is not None and T.guarded_exact(b, s.bb, t["args"][1]):
                     return self._auto(s, "chunk size compared before use")
                 # windows(HEADER.len()) etc: sizes of constants
                 if vs and not vs[0].taint and vs[0].bound == MEM:
                     return self._open(s, "chunk size from a length may be zero", False)
-            if all(l is None or T.guarded(b, s.bb, l) or self._from_search(b, l) for l in ls) and any(l is not None for l in ls):
+            if all(l is None or T.guarded_exact(b, s.bb, a) or self._from_search(b, l) for l, a in zip(ls, t["args"][1:])) and any(l is not None for l in ls):
                 return self._auto(s, "arguments compared / searched before the call")
             return self._open(s, "%s(%s) may panic" % (s.detail, ", ".join(map(str, vs))), any(v.taint for v in vs))
         if s.kind == "alloc":
@@ -278,7 +319,7 @@ class Census:
                 return self._auto(s, "size bounded by %s" % _fmt(v.bound))
             if not v.taint:
                 return self._auto(s, "size derives from in-memory data (proportional to the input)")
-            if self.G(b, s.bb, l, v):
+            if self.GX(b, s.bb, t["args"][k], v):
                 return self._auto(s, "size compared before the allocation")
             return self._open(s, "allocation sized by %s" % v, True)
         if s.kind == "unwrap":
@@ -296,6 +337,14 @@ class Census:
         if v is not None and v.g:
             return True
         return l is not None and self.taint.guarded(b, bb, l)
+
+    def GX(self, b, bb, op, v=None):
+        """the very value used (same expression) is compared / looked up before the site, or was in all callers"""
+        if v is not None and v.g:
+            return True
+        if op is None:
+            return False
+        return self.taint.guarded_exact(b, bb, op)
 
     def const_of(self, b, op):
         if op[0] == "const":
